@@ -146,6 +146,25 @@ type Case struct {
 }
 
 // RecvOn describes a receive clause (with or without assignment of the received value).
+// WaitRecv is what the rewriter puts in front of a statement of the form `v := <-c` (or `v, ok := <-c`,
+// `v = <-c`): under a scheduler it waits, as a blocking scheduling point, until the receive can proceed; the
+// statement's own receive then runs natively with no scheduling point in between. Without a scheduler it
+// does nothing.
+func WaitRecv(c interface{}) {
+	v := reflect.ValueOf(c)
+	s := sched.Installed()
+	if s == nil {
+		return
+	}
+	if s.IsAborting() {
+		sched.AbortNow()
+	}
+	if v.IsNil() {
+		s.Block("recv-nil", func() bool { return false })
+	}
+	s.Block("recv", func() bool { return ready(s, v) })
+}
+
 func RecvOn(c interface{}) Case { return Case{ch: reflect.ValueOf(c)} }
 
 // SendOn describes a send clause.
